@@ -111,8 +111,9 @@ loop_entry("types::Command::from_tokens", "$1=False",
            "path on which both position() searches find nothing is infeasible (the loop predicate is their disjunction)",
            check="stutter-unless-no-match")
 loop_entry("shell::do_command_substitution_for_dollar",
-           'discr(libs::re::find_first_group("\\$\\((.+)\\)", std::string::String::de=None | discr(regex::Regex::new("(?P<head>[^\\$]*)\\$\\(.+\\)(?P<tail>.*)"))=Err | shell::should_do_dollar_command_extension(std::string::String::deref($=False',
-           "each cycle replaces the first $(...) of `line` by command output (rescan of that output: C11 R11-2)")
+           'discr(libs::re::find_first_group($1, std::string::String::deref($2)))=None | discr(regex::Regex::new($1))=Err | shell::should_do_dollar_command_extension(std::string::String::deref($=False',
+           "each cycle replaces one $(...) of `line` (the innermost, else the widest) by command output, with the pattern "
+           "that found it (rescan of that output: C11 R11-2)")
 loop_entry("shell::expand_env",
            "eq(shell::expand_one_env($1, std::string::String::deref($2)), $2)=True | shell::env_in_token(std::string::String::deref($1))=False",
            "each cycle rewrites a reference in _token via expand_one_env and leaves when the rewrite changed nothing "
